@@ -499,6 +499,70 @@ pub fn mutate(rng: &mut Rng, text: &str, n: usize) -> String {
     toks.concat()
 }
 
+/// One structural (line / statement level) mutation of a program: the "single-mutation-invalid" inputs of the
+/// grammar families (a duplicated or dropped declaration line, two lines exchanged, a duplicated statement,
+/// a dropped brace line) - complements the token level `mutate`
+pub fn mutate_structure(rng: &mut Rng, text: &str) -> (String, &'static str) {
+    let mut lines: Vec<String> = text.split_inclusive('\n').map(|l| l.to_string()).collect();
+    if lines.len() < 2 {
+        return (mutate(rng, text, 1), "token");
+    }
+    // lines with content are preferred
+    let content: Vec<usize> = (0..lines.len()).filter(|i| lines[*i].trim().len() > 1).collect();
+    // `Name = value;` lines (pipeline / sampler / blend state properties, simple initialisers) are half of the picks:
+    // the table-like parts of the grammar are where a repeated or missing entry matters
+    let props: Vec<usize> = content.iter().copied().filter(|i| lines[*i].contains(" = ") && lines[*i].trim_end().ends_with(';') && !lines[*i].contains('(')).collect();
+    let pick_line = |rng: &mut Rng| -> usize {
+        if !props.is_empty() && rng.chance(1, 2) {
+            props[rng.below(props.len())]
+        } else if content.is_empty() {
+            0
+        } else {
+            content[rng.below(content.len())]
+        }
+    };
+    let i = pick_line(rng);
+    match rng.below(8) {
+        0 | 1 => {
+            let l = lines[i].clone();
+            lines.insert(i, l);
+            (lines.concat(), "duplicate-line")
+        }
+        2 => {
+            lines.remove(i);
+            (lines.concat(), "delete-line")
+        }
+        3 => {
+            if i + 1 < lines.len() {
+                lines.swap(i, i + 1);
+            }
+            (lines.concat(), "swap-adjacent-lines")
+        }
+        4 => {
+            let j = pick_line(rng);
+            lines.swap(i, j);
+            (lines.concat(), "swap-lines")
+        }
+        5 => {
+            // move a copy of one line somewhere else (a declaration repeated in another scope)
+            let j = pick_line(rng);
+            let l = lines[i].clone();
+            lines.insert(j, l);
+            (lines.concat(), "copy-line-elsewhere")
+        }
+        6 => {
+            // duplicate the statement around a random `;`
+            let l = lines[i].clone();
+            if let Some(k) = l.find(';') {
+                let (a, b) = l.split_at(k + 1);
+                lines[i] = format!("{}{}{}", a, a.trim_start(), b);
+            }
+            (lines.concat(), "duplicate-statement")
+        }
+        _ => (mutate(rng, text, 1), "token"),
+    }
+}
+
 /// Directed stress families. `k` is the size parameter (nesting depth / repetition count).
 pub fn stress_family(family: usize, k: usize) -> (String, String) {
     let rep = |s: &str, n: usize| s.repeat(n);
